@@ -553,6 +553,62 @@ fn c16_real_streams(ctx: &mut Ctx, case: &StaticCase, rng: &mut Rng, focus: Opti
     }
 }
 
+/// (a') the same validation for instances produced by *direct* use of the public `SatSolver` API of
+/// `ExternalSatSolver` (clauses, reservations and assumption patterns that no argumentation solver
+/// produces: assumptions on variables above every clause, negative ones, repeated ones, ...).
+fn c16_api_stream(ctx: &mut Ctx, rng: &mut Rng, replay_ops: Option<Vec<SOp>>) {
+    let log = ctx.out_dir.join(format!("msat-api-{}.log", ctx.shard));
+    let _ = std::fs::write(&log, b"");
+    let backend = Backend::External(msat_path(ctx), vec![format!("log={}", log.to_string_lossy())]);
+    let ops = match replay_ops {
+        Some(o) => o,
+        None => {
+            let len = rng.range(3, 12);
+            let mut ops = gen_sat_history(rng, len);
+            // assumption vectors of 1-3 literals on fresh variables, all sign patterns
+            if rng.pct(50) {
+                let top = 12 + rng.below(4) as isize;
+                let k = rng.range(1, 3);
+                let a: Vec<isize> = (0..k).map(|_| { let v = rng.range(1, top as usize) as isize; if rng.pct(50) { v } else { -v } }).collect();
+                ops.push(SOp::Solve(a));
+            }
+            ops
+        }
+    };
+    let mut solver = backend.make();
+    for op in ops.iter() {
+        let _ = catch(|| match op {
+            SOp::Add(c) => solver.add_clause(c.iter().map(|l| Literal::from(*l)).collect()),
+            SOp::Reserve(n) => solver.reserve(*n),
+            SOp::Solve(a) => {
+                let lits: Vec<Literal> = a.iter().map(|l| Literal::from(*l)).collect();
+                let _ = if a.is_empty() { solver.solve() } else { solver.solve_under_assumptions(&lits) };
+            }
+        });
+    }
+    ctx.eval();
+    let entries = drain_msat_log(&log);
+    ctx.count_by("dimacs_instances_validated", entries.len() as u64);
+    ctx.count_by("dimacs_instances_validated/sat-api-histories", entries.len() as u64);
+    for e in entries.iter() {
+        let errs = e["syntax_errors"].as_array().cloned().unwrap_or_default();
+        if let Some(first) = errs.first().and_then(|x| x.as_str()) {
+            let class: String = first.chars().filter(|c| !c.is_ascii_digit()).collect();
+            ctx.violation(
+                &format!("C16/malformed-dimacs/{}/sat-api-history", class.trim_matches('-')),
+                json!({"msat_log": e}),
+                &json!({"sub": "api-stream", "ops": ops.iter().map(|o| o.to_json()).collect::<Vec<_>>()}),
+            );
+            return;
+        }
+    }
+    if entries.len() >= 2 {
+        let mut h = Hasher64::new();
+        h.str(&serde_json::to_string(&ops.iter().map(|o| o.to_json()).collect::<Vec<_>>()).unwrap());
+        ctx.nontrivial(h.finish());
+    }
+}
+
 /// A CNF with exactly one model (units of random polarity plus implied clauses).
 fn unique_model_cnf(rng: &mut Rng, n_vars: usize, extra_clauses: usize) -> (Vec<Vec<isize>>, Vec<bool>) {
     let model: Vec<bool> = (0..n_vars).map(|_| rng.pct(50)).collect();
@@ -803,6 +859,17 @@ pub fn run_c16(ctx: &mut Ctx) {
         let ec = gen_exchange(ctx, &mut rng, i / ctx.nshards as u64);
         crate::report::guarded(ctx, |ctx| judge_exchange(ctx, &ec, timeout));
     }
+    let n_api: u64 = ctx.tier.pick(2_400, 40_000);
+    for i in 0..n_api {
+        if !ctx.mine(i) {
+            continue;
+        }
+        if ctx.out_of_time() {
+            return;
+        }
+        let mut rng = Rng::from_path(&[ctx.seed, 16, 3, i]);
+        crate::report::guarded(ctx, |ctx| c16_api_stream(ctx, &mut rng, None));
+    }
     for i in 0..n_streams {
         if !ctx.mine(i) {
             continue;
@@ -829,6 +896,12 @@ pub fn replay_c16(ctx: &mut Ctx, case: &Value, detail: &Value) -> Result<(), Str
             let c = StaticCase::from_json(&case["case"]).ok_or("bad case")?;
             let mut rng = Rng::new(3);
             c16_real_streams(ctx, &c, &mut rng, Some(detail));
+            Ok(())
+        }
+        Some("api-stream") => {
+            let ops: Vec<SOp> = case["ops"].as_array().map(|a| a.iter().filter_map(SOp::from_json).collect()).unwrap_or_default();
+            let mut rng = Rng::new(3);
+            c16_api_stream(ctx, &mut rng, Some(ops));
             Ok(())
         }
         Some("exchange") => {
